@@ -301,6 +301,31 @@ func isElemNilTest(info *types.Info, chain []ast.Node, cond ast.Expr) bool {
 	if !core.IsNil(info, y) {
 		return false
 	}
+	// S[i] with i the key of an enclosing range over S (or the counter of an index loop over S)
+	if ix, ok := x.(*ast.IndexExpr); ok {
+		iv := core.VarOf(info, ix.Index)
+		if iv == nil {
+			return false
+		}
+		sx := types.ExprString(ast.Unparen(ix.X))
+		for _, n := range chain {
+			switch l := n.(type) {
+			case *ast.RangeStmt:
+				if l.Key != nil && core.VarOf(info, l.Key) == iv && types.ExprString(ast.Unparen(l.X)) == sx {
+					return true
+				}
+			case *ast.ForStmt:
+				if be, ok := l.Cond.(*ast.BinaryExpr); ok && be.Op == token.LSS && core.VarOf(info, be.X) == iv {
+					if call, ok := ast.Unparen(be.Y).(*ast.CallExpr); ok && len(call.Args) == 1 && types.ExprString(ast.Unparen(call.Args[0])) == sx {
+						if id, ok := call.Fun.(*ast.Ident); ok && id.Name == "len" {
+							return true
+						}
+					}
+				}
+			}
+		}
+		return false
+	}
 	v := core.VarOf(info, x)
 	if v == nil {
 		return false
